@@ -88,6 +88,7 @@ static void vf_transform(int len, int type, double * d, long br, long sc)
   VF_ASSERT(br != 0 && sc != 0 && br <= vf_generation && sc == br + 1, "a transform runs on the currently allocated tables (C17)");
   VF_ASSERT(fft_len >= len, "a transform never runs with tables smaller than it needs (C17)");
   VF_ASSERT(g_writers_in_use == 0, "no transform starts while a writer is rebuilding the tables (C17)");
+  VF_ASSERT(fft_cache_ccrw.w.held, "a transform runs only while the writers' lock is held - by the writer itself or, on behalf of all readers, by the first reader: otherwise a writer could start rebuilding under it (C17)");
   /* fft4g.c:rdft/cdft rebuild the twiddle / bit-reversal tables in place whenever the requested length exceeds the length the
    * tables were last built for (ip[0], here vf_table_n) - whatever lock the caller holds.  Such a transform must be alone: */
   rebuilding = len > vf_table_n;
